@@ -44,6 +44,7 @@ pub fn inputs(quick: bool) -> Vec<String> {
         v.extend(family_e());
         v.extend(family_c(true));
         v.extend(family_d(true));
+        v.extend(family_k());
     }
     // nested implications / negations (the connectives gamma duplicates)
     let at = ["p", "q(X)", "q(a)", "X = a", "#false"];
@@ -115,7 +116,7 @@ pub fn run(run: &Run) {
     let all = inputs(quick);
     let total = all.len();
     run.set_extra("inputs_generated", json!(total));
-    run.set_rule("every formula of families A,B,E,F,G (+C,D thorough) and nested implication/negation shapes x all free-variable assignments x all pairs H subset-of T over U = {p, q(1), q(2), q(a)}: HT satisfaction of F vs classical satisfaction of gamma(F) under hp:=H, tp:=T; non-trivial = distinct HT table neither empty nor full");
+    run.set_rule("every formula of families A,B,E,F,G (+C,D and K thorough; K = complete connective depth 2 over five atoms and six connectives, complete depth 3 over {p, q(X)} with not/->/<-) and nested implication/negation shapes x all free-variable assignments x all pairs H subset-of T over U = {p, q(1), q(2), q(a)}: HT satisfaction of F vs classical satisfaction of gamma(F) under hp:=H, tp:=T; non-trivial = distinct HT table neither empty nor full");
     run.assume("finite slice as in C07; gamma preserves binders, so both sides use the same quantifier candidates");
     // injectivity of the h/t prefixing
     let names = ["p", "hp", "tp", "h", "t", "th", "ht", "p_h", "_p", "hhp", "tt", "q", "hq", "tq"];
